@@ -616,6 +616,8 @@ def norm(v):
 
 def dot(a, b):
     c = cur()
+    if a is b and isinstance(a, SV) and "sqnorm" in a.ghost:
+        return a.ghost["sqnorm"]          # v @ v of a vector whose squared norm is given by a callee contract
     if isinstance(a, SV) and isinstance(b, SV):
         _align(a, b)
     key = ("dot", id(a), getattr(a, "version", 0), id(b), getattr(b, "version", 0))
